@@ -38,7 +38,7 @@ def index_violation(st):
                 if st.lookup_oid(side, o) is not ent and not (ent.is_discarded or ent.is_conflicted):
                     return "lookup_oid(%r) on side %d does not return the live entry %s" % (o, side, ent)
     # pending set == entries with a change flag on a side that has an id; nothing discarded
-    cs = set(st._changeset)
+    cs = set(st._changeset_storage)       # (the raw set: on-demand mode overrides _changeset with a filtered view)
     for ent in cs:
         if not ((ent[0].changed and ent[0].oid is not None) or (ent[1].changed and ent[1].oid is not None)):
             return "pending set contains an entry without a change flag on a side that has an id: %s" % (ent,)
